@@ -4,9 +4,9 @@ import Secp.Proofs.HistoryLemmas
 import Secp.Proofs.ScalarEnc
 import Secp.Proofs.Fermat
 import Secp.Hand.History
-import Secp.Props.C06
-import Secp.Props.C08
-import Secp.Props.C09
+import Secp.Proofs.ScalarOpsSpec
+import Secp.Proofs.HashToGroup
+import Secp.Proofs.HashToScalar
 import Mathlib.Data.List.GetD
 /-!
 # C10: every step of the concrete machine refines the abstract machine
@@ -211,7 +211,7 @@ theorem stepOK_selfS (H : Bytes → Bytes) (s : CState) (op : Op) (i : Nat) (t :
 theorem sc_pow (s t : L4) (hs : sOk s) (ht : sOk t) :
     sOk (Hand.Scalar.pow s (some t)) ∧ sVal (Hand.Scalar.pow s (some t)) = sVal s ^ (sVal t).val := by
   by_cases h0 : sVal t = 0
-  · rw [C06.pow_zero s t ht h0, h0]
+  · rw [ScalarOps.pow_zero s t ht h0, h0]
     exact ⟨sOne_ok, by rw [show sVal Hand.Scalar.one = 1 from sVal_one]; simp⟩
   · by_cases h1 : sVal t = 1
     · have hz : Hand.Scalar.isZero t = false := by
@@ -224,7 +224,7 @@ theorem sc_pow (s t : L4) (hs : sOk s) (ht : sOk t) :
         rw [if_pos ((sc_isOne_iff t ht).mpr h1)]
       rw [e, h1, ZMod.val_one N, pow_one]
       exact ⟨hs, rfl⟩
-    · exact C06.pow_general s t hs ht h0 h1
+    · exact ScalarOps.pow_general s t hs ht h0 h1
 
 theorem val_sZero : (sVal Hand.Scalar.zero).val = 0 := by
   rw [show sVal Hand.Scalar.zero = 0 from sVal_zero]; rfl
@@ -295,7 +295,9 @@ theorem step_refines (H : Bytes → Bytes) (hH : HashOK H) (s : CState) (op : Op
     · subst hd
       refine stepOK_noop H s _ "panic" ?_ rfl hI
       show (match Hand.Group.hashToGroup H m [] with | none => (s, "panic") | some p => (setE s i p, "")) = _
-      rw [(C08.empty_dst_panics H m).1]
+      unfold Hand.Group.hashToGroup
+      rw [expandXMD_empty]
+      rfl
     · obtain ⟨R, hR, hv, hw⟩ := hashToGroup_spec H hH m d hd
       have hl : ¬ d.length = 0 := fun h => hd (List.length_eq_zero_iff.mp h)
       refine stepOK_el H s _ i R _ ?_ ?_ hI hv hw
@@ -308,7 +310,9 @@ theorem step_refines (H : Bytes → Bytes) (hH : HashOK H) (s : CState) (op : Op
     · subst hd
       refine stepOK_noop H s _ "panic" ?_ rfl hI
       show (match Hand.Group.encodeToGroup H m [] with | none => (s, "panic") | some p => (setE s i p, "")) = _
-      rw [(C08.empty_dst_panics H m).2]
+      unfold Hand.Group.encodeToGroup
+      rw [expandXMD_empty]
+      rfl
     · obtain ⟨R, hR, hv, hw⟩ := encodeToGroup_spec H hH m d hd
       have hl : ¬ d.length = 0 := fun h => hd (List.length_eq_zero_iff.mp h)
       refine stepOK_el H s _ i R _ ?_ ?_ hI hv hw
@@ -339,7 +343,7 @@ theorem step_refines (H : Bytes → Bytes) (hH : HashOK H) (s : CState) (op : Op
     obtain ⟨hv, hw⟩ := s_square (getS_ok s hI i)
     exact stepOK_sc H s _ i _ _ rfl rfl hI hv (by rw [agetS_abs]; exact (congrArg ZMod.val hw).trans (ZMod.val_mul _ _))
   | sinv i =>
-    obtain ⟨hv, hw⟩ := C06.invert_correct (getS s i) (getS_ok s hI i)
+    obtain ⟨hv, hw⟩ := ScalarOps.invert_correct (getS s i) (getS_ok s hI i)
     exact stepOK_sc H s _ i _ _ rfl rfl hI hv (by rw [agetS_abs, hw, val_inv_N])
   | sset i j =>
     cases j with
@@ -347,7 +351,7 @@ theorem step_refines (H : Bytes → Bytes) (hH : HashOK H) (s : CState) (op : Op
     | some j => exact stepOK_sc H s _ i _ _ rfl rfl hI (getS_ok s hI j) (agetS_abs s j).symm
   | scopy i j => exact stepOK_sc H s _ i _ _ rfl rfl hI (getS_ok s hI j) (agetS_abs s j).symm
   | ssetu i v =>
-    obtain ⟨hv, hw⟩ := C06.setUInt64_correct v hop
+    obtain ⟨hv, hw⟩ := ScalarOps.setUInt64_correct v hop
     exact stepOK_sc H s _ i _ _ rfl rfl hI hv (by rw [hw, ZMod.val_natCast])
   | sdec i b =>
     obtain ⟨h0, h1, h2, _⟩ := sc_decode (getS s i) b hop
